@@ -88,6 +88,7 @@ type Ev struct {
 	QSize    int64    `json:"qsize"`
 	Text     string   `json:"text,omitempty"`
 	Universe []string `json:"universe,omitempty"`
+	Rem      []string `json:"rem"` // push_end of a partial failure: the items reported as NOT delivered
 }
 
 const flushTimeout = 40 * time.Millisecond
@@ -228,7 +229,11 @@ func (r *runner) answer(tags []string) (string, []string) {
 			remaining = tags[len(tags)-k:]
 		}
 	}
-	r.log(Ev{Ev: "push_end", Items: tags, Call: call, Out: out})
+	rem := remaining
+	if rem == nil {
+		rem = []string{}
+	}
+	r.log(Ev{Ev: "push_end", Items: tags, Call: call, Out: out, Rem: rem})
 	return out, remaining
 }
 
@@ -347,7 +352,15 @@ func runScript(sc Script, serial *sync.Mutex) []Ev {
 		qc.NumConsumers = max(1, cfg.Consumers)
 		qc.BlockOnOverflow = cfg.Block
 		qc.WaitForResult = cfg.WFR
-		if cfg.Batch.On {
+		if cfg.Batch.On && cfg.Queue == "persistent" {
+			// a persistent queue only admits the requests sizer, sending_queue::batch only items/bytes: the two combine
+			// through the (deprecated, still public) WithBatcher option
+			bc := exporterhelper.NewDefaultBatcherConfig()
+			bc.Enabled = true
+			bc.FlushTimeout = flushTimeout
+			bc.SizeConfig = exporterhelper.SizeConfig{Sizer: exporterhelper.RequestSizerTypeItems, MinSize: cfg.Batch.Min, MaxSize: cfg.Batch.Max}
+			opts = append(opts, exporterhelper.WithBatcher(bc))
+		} else if cfg.Batch.On {
 			qc.Sizer = exporterhelper.RequestSizerTypeItems
 			if cfg.Batch.Sizer == "bytes" {
 				qc.Sizer = exporterhelper.RequestSizerTypeBytes
